@@ -187,6 +187,61 @@ def check_title(title, out, stats):
         stats["title-" + problems[0].split(" ")[0]] = stats.get("title-" + problems[0].split(" ")[0], 0) + 1
 
 
+def check_autotitles(drv, keys, out, stats):
+    """untitled object schemas under the given keys of `properties` and of `definitions`, titled by the library's own
+    labeller (the generator's path): every class gets a usable, distinct class name"""
+    import re as _re
+    from json_ref_dict import materialize
+    from statham.schema.parser import parse
+    from statham.serializers.orderer import get_object_classes
+    from statham.serializers.python import serialize_python
+    from statham.titles import title_labeller
+    doc = {"type": "object", "title": "Root",
+           "properties": {k: {"type": "object", "properties": {"v": {"type": "integer"}}} for k in keys},
+           "definitions": {k: {"type": "object", "properties": {"w": {"type": "string"}}} for k in keys[:2]}}
+    case = {"autotitle_keys": list(keys)}
+    out.note_case(case, True)
+    import json as _json, os as _os, tempfile as _tempfile
+    from json_ref_dict import RefDict
+    tmp = _tempfile.mkdtemp(prefix="statham-c12-")
+    try:
+        path = _os.path.join(tmp, "doc.json")
+        with open(path, "w", encoding="utf8") as fh:
+            _json.dump(doc, fh)
+        schema = materialize(RefDict.from_uri(path + "#/"), context_labeller=title_labeller())
+    except Exception as exc:  # noqa: BLE001
+        out.failures.append({"case": case, "what": f"loading / titling raised {type(exc).__name__}: {exc}", "finding": None})
+        return
+    finally:
+        import shutil as _shutil
+        _shutil.rmtree(tmp, ignore_errors=True)
+    try:
+        elements = parse(schema)
+        classes = []
+        for c in get_object_classes(*elements):
+            if not any(c is d for d in classes):
+                classes.append(c)
+        names = [c.__name__ for c in classes]
+    except Exception as exc:  # noqa: BLE001
+        out.failures.append({"case": case, "what": f"titling / parsing raised {type(exc).__name__}: {exc}", "finding": None})
+        return
+    # listed region (C12-titles): the labeller uses the key itself as the title (all-digit keys get the parent's title in front),
+    # and the title formatter — per the Lean model of it, not per the code under test — makes no usable class name of it
+    rep = drv.ask({"op": "titles", "names": [k for k in keys if not k.isdigit()]})
+    formatted = rep.get("titles", []) if "error" not in rep else []
+    poor = [t for t in formatted if not t or not t.isidentifier() or keyword.iskeyword(t) or t in USED_NAMES]
+    bad = [n for n in names if not n or not n.isidentifier() or keyword.iskeyword(n)]
+    if bad or len(set(names)) != len(names):
+        out.failures.append({"case": case, "what": f"automatic titles for keys {list(keys)} give class names {names}", "finding": "C12-titles" if poor else None})
+        return
+    try:
+        compile(serialize_python(*elements), "<autotitles>", "exec")
+    except SyntaxError as exc:
+        out.failures.append({"case": case, "what": f"module generated for keys {list(keys)} does not compile: {exc}", "finding": "C12-titles" if poor else None})
+        return
+    stats["autotitles-ok"] = stats.get("autotitles-ok", 0) + 1
+
+
 def object_attribute_names():
     """every attribute an `Object` instance or class already has, plus the per-instance slots `dir(object)` does not list"""
     from statham.schema.elements import Object
@@ -228,6 +283,23 @@ def check_usable(name, out, stats):
     except Exception as exc:  # noqa: BLE001
         out.failures.append({"case": case, "what": f"property {name!r}: a wrong value raised {type(exc).__name__} instead of the validation error", "finding": None})
         return
+    # the generated module: the declaration written for this property, executed, still answers to the JSON name
+    mangled = attr.startswith("__") and not attr.endswith("__")
+    if attr.isidentifier() and unicodedata.normalize("NFKC", attr) == attr and not mangled and name != "":
+        from statham.serializers.python import serialize_python
+        try:
+            ns = {}
+            exec(serialize_python(cls), ns)  # noqa: S102 - the generated text is the thing under test
+            gen = ns["Probe"]
+            ginst = gen({name: 1})
+            gsrc = gen.properties[attr].source or attr
+            if getattr(ginst, attr) != 1 or gsrc != name:
+                out.failures.append({"case": case, "what": f"property {name!r}: the generated class records JSON name {gsrc!r} and reads back {getattr(ginst, attr)!r}", "finding": None})
+                return
+        except Exception as exc:  # noqa: BLE001
+            out.failures.append({"case": case, "what": f"property {name!r} (attribute {attr!r}): the generated class cannot be built from {{{name!r}: 1}}: {type(exc).__name__}: {exc}", "finding": None})
+            return
+        stats["usable-generated-ok"] = stats.get("usable-generated-ok", 0) + 1
     stats["usable-ok"] = stats.get("usable-ok", 0) + 1
 
 
@@ -304,8 +376,12 @@ def run(ctx, scale=1.0):
             check_shared_object(rng.sample(hostile, rng.choice([1, 2, 3])), out, stats)
         check_siblings(["a b", "a_b"], out, stats)
         check_siblings(["", "blank"], out, stats)
+        auto_pool = ["404", "2020", "1", "0", "a", "item", "x1", "1st", "my-key", "snake_case", "UPPER", "a b", "顧客", "$", "é1", "v2.0", "__x", "3d"]
+        for _ in range(int(40 * scale)):
+            check_autotitles(drv, rng.sample(auto_pool, rng.choice([2, 3, 4])), out, stats)
+        check_autotitles(drv, ["404", "200"], out, stats)
         # every name an Object already has as an attribute, and a sample of ordinary ones, must be usable as a property
-        for n in object_attribute_names() + sorted(OWN_RESERVED) + rng.sample(WORDS, min(len(WORDS), 20)):
+        for n in object_attribute_names() + sorted(OWN_RESERVED) + [w + "_" for w in keyword.kwlist] + rng.sample(WORDS, min(len(WORDS), 20)):
             check_usable(n, out, stats)
         from harness.gen import SchemaGen
         sg = SchemaGen(rng)
@@ -355,6 +431,12 @@ def replay_finding(finding):
         check_title(w["title"], out, stats)
     elif "usable" in w:
         check_usable(w["usable"], out, stats)
+    elif "autotitle_keys" in w:
+        drv = core.Driver()
+        try:
+            check_autotitles(drv, w["autotitle_keys"], out, stats)
+        finally:
+            drv.close()
     else:
         return bool(attr_problems(w["name"], _parse_attribute_name(w["name"])))
     return bool(out.failures)
